@@ -4,6 +4,8 @@ package eni
 
 import (
 	"context"
+	"net"
+	"net/netip"
 	"strconv"
 	"sync"
 
@@ -325,4 +327,35 @@ func ZZ_C06_allocate_vs_dispose() {
 	l.factoryDisposeWorker(wctx)
 	zz.OnYield(nil)
 	zz.Reach("dispose-after-add")
+}
+
+// C06 (never unassigns an interface's primary address) across a restart: the
+// primary address of an attached interface is recognised when the pool is
+// rebuilt, in whichever form the ENI description carries it - the 16-byte form
+// net.ParseIP produces (what the metadata service, the factories and
+// IPSet.SetIP write) or the 4-byte form - and a shrink that follows never
+// selects it.
+func ZZ_C06_restart_keeps_primary() {
+	f := zzNewFactory(false)
+	f.loadOK = true
+	f.load4 = []netip.Addr{zzAddr4(1), zzAddr4(2), zzAddr4(3)}
+	e := zzTestENI()
+	if zz.Bool("primary.in.16.byte.form") {
+		e.PrimaryIP.IPv4 = net.ParseIP("10.0.0.1")
+	}
+	l := &Local{cap: 4, eni: e, eniType: "secondary", enableIPv4: true, ipv4: make(Set), ipv6: make(Set), cond: sync.NewCond(&sync.Mutex{}), factory: f}
+	err := l.load(nil)
+	zz.Assert(err == nil, "an attached interface loads")
+	if err != nil {
+		return
+	}
+	p := l.ipv4[zzAddr4(1)]
+	zz.Assert(p != nil && p.primary, "the interface's primary address is recognised after a restart")
+	for _, a := range []netip.Addr{zzAddr4(2), zzAddr4(3)} {
+		zz.Assert(l.ipv4[a] != nil && !l.ipv4[a].primary, "secondary addresses are not taken for the primary")
+	}
+	// the balancer shrinks the pool: every idle address may go, the primary never
+	n := zz.Fork("dispose.n", 4)
+	l.Dispose(n)
+	zz.Assert(p == nil || p.status != ipStatusDeleting, "a shrink after the restart never selects the primary address")
 }
